@@ -137,6 +137,21 @@ Theorem C11_app_single_stop : forall ops r idx,
 Proof. exact app_single_stop. Qed.
 Print Assumptions C11_app_single_stop.
 
+(* once a call is stuck behind the list lock nothing happens any more *)
+Theorem C11_after_deadlock : forall pre o,
+  s_dead (final pre) = true -> decl (env_of pre) o = env_of pre ->
+  final (pre ++ [o]) = final pre /\ run (pre ++ [o]) = run pre ++ [[]].
+Proof. exact after_deadlock. Qed.
+Print Assumptions C11_after_deadlock.
+
+(* ... and that only ever happens to a request the guard had accepted: the state is Starting or
+   Stoping; a bare ModList (no owner callbacks in the model) never gets there *)
+Theorem C11_deadlock_only_accepted : forall ops,
+  s_dead (final ops) = true ->
+  is_app (e_mode (env_of ops)) = true /\ (s_app (final ops) = 2 \/ s_app (final ops) = 4).
+Proof. exact deadlock_only_accepted. Qed.
+Print Assumptions C11_deadlock_only_accepted.
+
 (* ---- the modules shipped with the framework ---- *)
 
 (* every path of every Start/Stop (as repaired by hooks/C11-fix-*.patch) calls next exactly
@@ -179,10 +194,10 @@ Print Assumptions C11_cluster_async_faults_frame.
 
 (* the same as they are plugged into the list machine, for every environment (every set of
    declared etcd faults, every address, every mode) *)
-Theorem C11_builtin_entry_once : forall e fwd live prov half k,
+Theorem C11_builtin_entry_once : forall e fwd live bound prov half k,
   shipped k = true -> (k = KActor -> fwd = false -> live = true) ->
   (k = KCluster -> fwd = false -> half = false) ->
-  exists b, entry_beh e fwd live prov half k = Beh [b] false.
+  exists b, entry_beh e fwd live bound prov half k = Beh [b] false.
 Proof. exact shipped_entry_once. Qed.
 Print Assumptions C11_builtin_entry_once.
 
@@ -314,6 +329,49 @@ Example C11_claimed_calls :
    caps_of (concat (run ops)) = [(0, 0); (0, 1); (0, 2); (1, 2); (1, 1); (1, 0)]) /\
   (let ops := [OEnv ABad true false; OMod KCluster; OStart; OStop] in
    unclaimed (env_of ops) (map fst (s_runs (final ops))) false [] (concat (run ops)) = [(1, 0)]).
+Proof. vm_compute. repeat split. Qed.
+
+(* ---- second life cycles: what survives a Stop ---- *)
+(* bare list on a node with a fixed address: start, stop, start again - the remote of the first
+   life cycle still holds the port, the second Start fails on its own and reports once - and the
+   Stop after that failed Start shuts down the module's own, new system and reports once.  The
+   node still publishes the FIRST system, which is shut down (POld false): a Stop that went by
+   the published system (actor_stop_prog_published, never in the repository) would panic here
+   and also in the first life cycle after a failed listen (nothing published yet) *)
+Example C11_second_life_cycle :
+  (let ops := [OMode MListNode; OEnv AFixed false false; OMod KWelcome; OMod KActor; OStart; OStop; OStart; OStop] in
+   run ops = [[]; []; []; [];
+     [EEnter 0 0; ENext 0 0 true; EEnter 0 1; ENext 0 1 true; EFin 0 true];
+     [EEnter 1 1; ENext 1 1 true; EEnter 1 0; ENext 1 0 true; EFin 1 true];
+     [EEnter 2 0; ENext 2 0 true; EEnter 2 1; ENext 2 1 false; EFin 2 false];
+     [EEnter 3 1; ENext 3 1 true; EEnter 3 0; ENext 3 0 true; EFin 3 true]] /\
+   s_bound (final ops) = true) /\
+  (let pre := [OMode MListNode; OEnv AFixed false false; OMod KWelcome; OMod KActor; OStart; OStop; OStart] in
+   s_pub (final pre) = POld false /\ s_live (final pre) = true /\
+   beh_of (actor_stop_prog (s_live (final pre))) = Beh [true] false /\
+   beh_of (actor_stop_prog_published (s_pub (final pre)) (s_live (final pre))) = Beh [] true) /\
+  (let pre := [OMode MListNode; OEnv ABusy false false; OMod KWelcome; OMod KActor; OStart] in
+   s_pub (final pre) = PNone /\ s_live (final pre) = true /\
+   beh_of (actor_stop_prog_published (s_pub (final pre)) (s_live (final pre))) = Beh [] true /\
+   run (pre ++ [OStop]) = [[]; []; []; []; [EEnter 0 0; ENext 0 0 true; EEnter 0 1; ENext 0 1 false; EFin 0 false];
+                           [EEnter 1 1; ENext 1 1 true; EEnter 1 0; ENext 1 0 true; EFin 1 true]]).
+Proof. vm_compute. repeat split. Qed.
+
+(* ---- requests made from inside the completion callbacks ---- *)
+(* Stop requested inside the start callback.  With a module that completes later the callback runs
+   outside the list lock: the state is already Normal, the Stop is honoured and the stop run runs
+   right there, before the fired continuation returns; a later Stop is refused.  With synchronous
+   modules only the callback runs while ModList.Filter holds the list lock: the Stop is honoured
+   too and waits for that lock for ever (observed on the real code) - the history is over. *)
+Example C11_stop_inside_start_callback :
+  run [OMode (MApp true); OCallback true false; OMod (KScript ex_ok ex_ok); OMod (KScript ex_later ex_ok); OStart; OFire 1 true; OStop]
+  = [[]; []; []; []; [EEnter 0 0; ENext 0 0 true; EEnter 0 1];
+     [ENext 0 1 true; EFin 0 true; EEnter 1 1; ENext 1 1 true; EEnter 1 0; ENext 1 0 true; EFin 1 true]; []] /\
+  run [OMode (MApp true); OCallback true false; OMod (KScript ex_ok ex_ok); OMod (KScript ex_ok ex_ok); OStart; OStop]
+  = [[]; []; []; []; [EEnter 0 0; ENext 0 0 true; EEnter 0 1; ENext 0 1 true; EFin 0 true; EDeadlock 0]; []] /\
+  (* the requests the guards refuse: Start from either callback, Stop from the stop callback *)
+  run [OMode (MApp true); OCallback true true; OCallback false false; OMod (KScript ex_ok ex_ok); OStart; OStop; OStart]
+  = [[]; []; []; []; [EEnter 0 0; ENext 0 0 true; EFin 0 true]; [EEnter 1 0; ENext 1 0 true; EFin 1 true]; []].
 Proof. vm_compute. repeat split. Qed.
 
 (* a module that calls next(true) twice: finish runs twice *)
